@@ -557,6 +557,18 @@ class Sym:
                     kws.extend((kk[1], vv) for kk, vv in kv[1])            # f(**{"a": x}) == f(a=x)
                 else:
                     kws.append((k.arg if k.arg is not None else '**', kv))
+            if f[0] == 'g' and getattr(s, '_cc_depth', 0) < 4:
+                # a module-level name bound once to methodcaller(...) / attrgetter(...) / itemgetter(...) / partial(...): the callable it names
+                lk_ = s.model.lookup(f)
+                if lk_ and lk_[0] == 'const' and isinstance(lk_[1], ast.Call) and not s.model.reassigned(f[1], f[2]):
+                    fn_ = lk_[1].func
+                    nm_ = fn_.id if isinstance(fn_, ast.Name) else (fn_.attr if isinstance(fn_, ast.Attribute) else '')
+                    if nm_ in ('methodcaller', 'attrgetter', 'itemgetter', 'partial'):
+                        s._cc_depth = getattr(s, '_cc_depth', 0) + 1
+                        try:
+                            f = s.term(lk_[1], {}, f[1], None)
+                        finally:
+                            s._cc_depth -= 1
             if f[0] == 'call' and f[1][0] in ('ext', 'g', 'b') and len(args) == 1 and not kws and f[2] and f[2][0][0] == 'c' and isinstance(f[2][0][1], str):
                 opn = term_name(f[1]).split('.')[-1]
                 if opn == 'methodcaller' and f[2][0][1].isidentifier():
@@ -1567,12 +1579,26 @@ class Sym:
                 ast.copy_location(x, st)
             return s.while_loop(new_loop, leaf)
         const_true = isinstance(st.test, ast.Constant) and bool(st.test.value)
+        # `flag = True; while flag: ... flag = False ...`: a loop that runs until the body clears its flag is `while True` whose
+        # iterations that end with the flag cleared leave the loop (the test is only evaluated between iterations)
+        flag_loop = None
+        flag_exit = False
+        tn_ = st.test
+        neg_ = isinstance(tn_, ast.UnaryOp) and isinstance(tn_.op, ast.Not)
+        fl_ = tn_.operand if neg_ else tn_
+        if not const_true and not st.orelse and isinstance(fl_, ast.Name) and leaf.env.get(fl_.id) == ('c', not neg_):
+            assigns = [n for b in st.body for n in ast.walk(b) if isinstance(n, (ast.Assign, ast.AugAssign, ast.AnnAssign, ast.NamedExpr)) and any(isinstance(x, ast.Name) and x.id == fl_.id and isinstance(x.ctx, ast.Store) for x in ast.walk(n))]
+            if assigns and all(isinstance(n, ast.Assign) and len(n.targets) == 1 and isinstance(n.targets[0], ast.Name) and isinstance(n.value, ast.Constant) and n.value.value is neg_ for n in assigns) \
+                    and not any(isinstance(n, (ast.FunctionDef, ast.Lambda, ast.Global, ast.Nonlocal)) for b in st.body for n in ast.walk(b)):
+                flag_loop = fl_.id              # (`while flag` cleared by flag = False; `while not done` ended by done = True)
+                flag_exit = neg_
+                const_true = True
         res = []
         one = leaf.clone()
         s._drop_forwards(one.env)
         assigned = s._assigned_names(st.body, leaf.env)
         for nm in assigned:
-            if nm in one.env:
+            if nm in one.env and nm != flag_loop:
                 one.env[nm] = ('loopvar', nm, st.lineno, one.env[nm])
         one.effects.append(('loop-enter', ('c', True) if const_true else s.T(st.test, one), None, st, len(one.conds)))
         if const_true:
@@ -1587,6 +1613,8 @@ class Sym:
                 res.append(l)
         for r in s.block(st.body, starts):
             broke = r.outcome == 'break'
+            if flag_loop is not None and r.outcome in (None, 'continue') and r.env.get(flag_loop) == ('c', flag_exit):
+                broke = True                      # the iteration cleared the flag: the loop test fails next
             s._drop_forwards(r.env)
             r.effects.append(('loop-exit', r.outcome, None, st, len(r.conds)))
             if r.outcome in ('break', 'continue'):
@@ -1617,6 +1645,13 @@ class Sym:
             # the handler runs after a prefix of the body: variables assigned in the body are unknown,
             # effects of the body may or may not have happened
             single = len(st.body) == 1 and isinstance(st.body[0], (ast.Assign, ast.AugAssign, ast.AnnAssign, ast.Expr, ast.Return))
+            if not single and len(st.body) == 1 and isinstance(st.body[0], ast.If):
+                # try: if <test that may raise>: x = CONST else: x = CONST -- the branches cannot raise (plain assignments of constants /
+                # names, pass, return of a constant), so an exception comes from the test, before anything was assigned
+                def inert(b):
+                    return isinstance(b, ast.Pass) or (isinstance(b, ast.Assign) and all(isinstance(t_, ast.Name) for t_ in b.targets) and isinstance(b.value, (ast.Constant, ast.Name))) \
+                        or (isinstance(b, ast.Return) and (b.value is None or isinstance(b.value, (ast.Constant, ast.Name))))
+                single = all(inert(b) for b in st.body[0].body + st.body[0].orelse)
             if not single:          # (an exception inside a single simple statement leaves its target unassigned: the state is the one before)
                 for nm in s._assigned_names(st.body):
                     l.env[nm] = ('maybe', nm)
